@@ -38,4 +38,16 @@ var props = map[string]*propCfg{
 			"events are published before Close is called (publishing after Close is outside the property)",
 		}, commonAssumptions...),
 	},
+	"C12": {
+		Harness: "hcmdq", Level: "exploration",
+		QuickRuns: 3000, QuickBudgetS: 90, ThoroughRuns: 300000, ThoroughBudgetS: 1200,
+		WatchdogSlackS: 120, DetSeedsQuick: 20, DetSeedsThorough: 200,
+		Rule: "one run = 1-4 commands with 0-5 targets each (overlapping target sets, timeouts 1/5/90/120 s) enqueued by 1-3 concurrent clients on the real CommandQueue+Servent; per (command,target) a behaviour from {reply, error reply, send failure, silence, duplicate, late, foreign id, id of another command, wrong sender} and a delay are drawn; replies are delivered by independent goroutines in schedule-decided order; non-trivial = at least one command with a target; distinct = distinct (scenario, interleaving)",
+		Real:    []string{"core/controlcommands: CommandQueue (Enqueue, Start loop, commit), Servent (RunCommand, ProcessResponse), MakeSingleTarget, consolidateResponses, MesosCommandMultiResponse"},
+		Stub:    []string{"send function (injected SendCommandFunc, the code's own seam)", "executors: replies drawn from the fault stream"},
+		Assumptions: append([]string{
+			"replies scheduled within the last 10% before the timeout are not generated (the oracle does not decide races to the millisecond)",
+			"one queue per servent, as in the core (schedulerstate.go)",
+		}, commonAssumptions...),
+	},
 }
